@@ -1331,7 +1331,11 @@ fn c12_run(case: &mut Case, rng: &mut Rng) {
         case.ctl(&format!("release h0 h{b}"));
         case.ctl(&format!("repair h0 h{b}"));
     }
-    for _ in 0..(case.cfg.maxlat_ms + 4) {
+    // … one accept per round: keep going until nobody is waiting any more (bounded: a connect that hangs for good
+    // must not hang the generator — the oracle reports it at the `settled` mark)
+    let mut round = 0;
+    while round < case.cfg.maxlat_ms + 4 || (listening && !pending.is_empty() && round < case.cfg.maxlat_ms + 4 + 72) {
+        round += 1;
         if listening {
             let s = next_slot[0];
             next_slot[0] += 1;
